@@ -63,7 +63,7 @@ def c01_7(cx):
     cx.flow(q, q.origin_local(0), [r"^tuple\{0: <C as function::Configuration>::execute\(\$1, .*id_to_input\(\$2, .*\)\), 1: \$3\}$"], [], "execute_query returns (C::execute(db, id_to_input(id)), active_query)")
 
 
-@ob("C01.8", ["C01", "C02", "C12"], also=["C03", "C05"], nec="backdating across a durability decrease, for a provisional old memo, with cycle heads, or without value equality lets dependents keep a result computed from a value that did change", kind="ONLYIF+FLOW")
+@ob("C01.8", ["C01", "C02", "C12", "C20"], also=["C03", "C05"], nec="backdating across a durability decrease, for a provisional old memo, with cycle heads, or without value equality lets dependents keep a result computed from a value that did change", kind="ONLYIF+FLOW")
 def c01_8(cx):
     """backdate is called only if old.can_backdate(new) and old.value().is_some_and(|v| C::values_equal(v, new_value)); can_backdate is true only if new.cycle_heads().is_empty() and !old.may_be_provisional() and new.durability >= old.durability; backdate copies old changed_at into the new revisions."""
     b = cx.fn(F + r"backdate::<impl function::IngredientImpl<C>>::backdate_if_appropriate$")
